@@ -572,16 +572,27 @@ func (r *streamErrReader) Token() (xml.Token, error) {
 }
 
 type iqResponder struct {
-	r xml.TokenReader
-	c chan xmlstream.TokenReadCloser
+	r    xml.TokenReader
+	c    chan xmlstream.TokenReadCloser
+	once *sync.Once
 }
 
 func (r iqResponder) Token() (xml.Token, error) {
-	return r.r.Token()
+	tok, err := r.r.Token()
+	if err != nil && err != io.EOF {
+		// The stream itself is broken, nothing more can be read from the
+		// response: do not make the serve loop wait for a Close that the error
+		// paths of the consumer (eg. closing an iterator) may never get to.
+		/* #nosec */
+		r.Close()
+	}
+	return tok, err
 }
 
 func (r iqResponder) Close() error {
-	close(r.c)
+	r.once.Do(func() {
+		close(r.c)
+	})
 	return nil
 }
 
@@ -640,8 +651,9 @@ func handleInputStream(s *Session, handler Handler) (err error) {
 			verifYield("serve.handoff", id)
 			select {
 			case readerChan.c <- iqResponder{
-				r: xmlstream.Wrap(inner, start),
-				c: readerChan.c,
+				r:    xmlstream.Wrap(inner, start),
+				c:    readerChan.c,
+				once: &sync.Once{},
 			}:
 				verifYield("serve.handed", id)
 				<-readerChan.c
